@@ -336,4 +336,11 @@ func init() {
 	}, Prefix: func(r *PRNG, c *Config) []Step {
 		return []Step{{K: "mkset", A: 0}, {K: "mkpod", A: 0, B: 0, C: ownOtherKind | 3<<2 | 1<<6, D: c.Sets[0].Template}, {K: "boot"}}
 	}}
+
+	// bigint: template edits that include an integer above 2^53 (C08 only; the
+	// revision encoding shared with upstream rounds such numbers)
+	profiles["bigint"] = &Profile{Name: "bigint", Tweak: func(r *PRNG, c *Config) {
+		profiles["history"].Tweak(r, c)
+		c.Liveness = false // "at the update revision" is judged by content, which the rounding changes
+	}}
 }
